@@ -157,6 +157,47 @@ theorem C06_machine_held_traj (R : Tid → Nat → Nat → Prop) (s0 s : Sys) (h
     spanInv_machine_held hs (reachD_spanInv s0 s hw h) mt hmt⟩
 
 
+/-! ### (A2') … and until the recorded finish (F13) -/
+
+/-- **The block that gives a machine back** (the block of `allocate_task_to_cluster` that ends the
+process: it removes the task from the running tasks, frees the machine and marks the record
+FINISHED), run at time `now`: the task was running, its body had ended, and every finish the body
+recorded is reached, `aft ≤ now`.  With `C06_recorded_span_traj` (`aft = ast + max 1 total`): a
+machine is held for at least the recorded span of its task. -/
+-- F13: new.  Before the repair the block ran as soon as the body had ended (one step before `aft`
+-- whenever the body's timeout was older than the allocation process's, i.e. for spans ≥ 3).
+theorem C06_release_block (s : Sys) (hpw : PW s) (now : Time) (t : Tid) (m : Mid) (preds : List Tid)
+    (obs : Option Oid) (ing : Bool) (ret : Nat)
+    (hdone : (s.allocTaskBlock now t m preds obs ing ret).2.2 = .done) :
+    t ∈ s.cl.running ∧ s.procTriggered ret = true ∧
+    (∀ r f, s.task? t = some r → r.aft = some f → f ≤ now) ∧
+    (s.allocTaskBlock now t m preds obs ing ret).1
+      = ({ s with cl := (s.cl.allocEnd t m obs ing).1 }).updTask t (fun r => { r with status := .finished }) := by
+  rcases allocTaskBlock_cases' s hpw now t m preds obs ing ret with
+    ⟨_, e, _, heq⟩ | ⟨_, _, heq⟩ | ⟨_, _, heq⟩ | ⟨_, _, e, _, heq⟩ | ⟨hr, ⟨htr, haft⟩, _, heq⟩ <;>
+    rw [heq] at hdone ⊢
+  · cases hdone
+  · cases hdone
+  · cases hdone
+  · cases hdone
+  · exact ⟨hr, htr, aftReached_eq_true haft, rfl⟩
+
+/-- **A polling block before the recorded finish**: the task is running and its record carries a
+finish `f` that is still ahead (`now < f`) — whether or not the body has ended, the block changes
+nothing and the process polls again one step later: the machine stays with the task. -/
+-- F13: new
+theorem C06_hold_block (s : Sys) (hpw : PW s) (now : Time) (t : Tid) (m : Mid) (preds : List Tid)
+    (obs : Option Oid) (ing : Bool) (ret : Nat) (hrun : t ∈ s.cl.running) (r : TaskRec) (f : Time)
+    (hr : s.task? t = some r) (hf : r.aft = some f) (hlt : now < f) :
+    s.allocTaskBlock now t m preds obs ing ret = (s, .allocTask t m preds obs ing ret, .timeout 1) := by
+  rcases allocTaskBlock_cases' s hpw now t m preds obs ing ret with
+    ⟨hnr, _⟩ | ⟨hnr, _⟩ | ⟨_, _, heq⟩ | ⟨_, ⟨_, haft⟩, _⟩ | ⟨_, ⟨_, haft⟩, _⟩
+  · exact absurd hrun hnr
+  · exact absurd hrun hnr
+  · exact heq
+  · exact absurd hlt (Rat.not_lt.mpr (aftReached_eq_true haft r f hr hf))
+  · exact absurd hlt (Rat.not_lt.mpr (aftReached_eq_true haft r f hr hf))
+
 /-! ### (A3) the simulator -/
 
 /-- **The recorded span along the simulator's runs** (SimPy's order; pauses, and states after an
